@@ -252,6 +252,16 @@ def succOf (c : Nat) : List Nat → Option Nat
   | [] => none
   | x :: rest => if x = c then rest.head? else succOf c rest
 
+def brOpenW (s : St) : Option Nat → St
+  | some x => s.ref x fun k => { k with brWalk := true }
+  | none => s
+def brCloseW (s : St) (c : Nat) : St := s.dec c fun k => { k with brWalk := false }
+
+/-- one round of the repaired walk: next_get (reference on the next), disconnect, unref -/
+def walkStep (s : St) (c : Nat) (nxt : Option Nat) : St :=
+  let s := exec FUEL (brOpenW s nxt) (.disc c)
+  if s.halt then s else exec FUEL (brCloseW s c) (.zero c)
+
 /-- qb_ipcs_destroy's walk, repaired (D20c): first_get/next_get with references -/
 def walkFix : Nat → St → Option Nat → St
   | 0, s, _ => s
@@ -260,13 +270,7 @@ def walkFix : Nat → St → Option Nat → St
     if s.halt then s else
     let s := s.touch c
     if s.halt then s else
-    let nxt := succOf c s.list
-    let s := match nxt with
-      | some x => s.ref x fun k => { k with brWalk := true }
-      | none => s
-    let s := exec FUEL s (.disc c)
-    let s := if s.halt then s else exec FUEL (s.dec c fun k => { k with brWalk := false }) (.zero c)
-    walkFix n s nxt
+    walkFix n (walkStep s c (succOf c s.list)) (succOf c s.list)
 
 /-- qb_list_for_each_safe(pos, n, ...) { qb_ipcs_disconnect(c) } -/
 def walkOrig : Nat → St → Option Nat → St
@@ -298,63 +302,76 @@ def lookupClient (K : Nat) : List (Nat × Nat) → Option Nat
   | [] => none
   | (k, c) :: r => if k = K then some c else lookupClient K r
 
+/-! helpers of `connect` (handle_new_connection) -/
+
+/-- qb_ipcs_uc_recv_and_auth: the pending handshake holds a service reference;
+    qb_ipcs_connection_alloc: initial reference + the connection's service reference -/
+def connA (s : St) : St :=
+  ({ s with nconn := s.nconn + 1, svcRc := s.svcRc + 2 }).upd (s.nconn + 1) fun _ => { rc := 1, init := true }
+
+/-- accept refused: state INACTIVE, decrement of the initial reference -/
+def connRejPre (s : St) (c : Nat) : St :=
+  (s.upd c fun k => { k with phase := .rejected }).dec c fun k => { k with init := false }
+
+def connRejPost (s : St) (r : Int) : St :=
+  if s.halt then s else (s.svcUnref).emit (.res (errName r))
+
+/-- ACTIVE, qb_list_add, response sent; temporary reference; connection_created invoked -/
+def connActPre (s : St) (c : Nat) : St :=
+  ((({ s with list := c :: s.list }).upd c fun k => { k with st := .active, rc := k.rc + 1, brCreated := true }).cb
+    .created c 0).upd c fun k => { k with created := true }
+
+/-- after created: ESTABLISHED unless disconnected meanwhile; decrement of the temporary reference -/
+def connEstPre (s : St) (c : Nat) : St :=
+  (s.upd c fun k => if k.st = .active then { k with st := .established } else k).dec c
+    fun k => { k with brCreated := false }
+
+/-- the client is connected iff the server did not drop the connection inside created -/
+def connFin (s : St) (K c : Nat) : St :=
+  if s.halt then s else
+  let s := s.svcUnref
+  (if (s.conns c).st == .established && !(s.conns c).freed then { s with clients := (K, c) :: s.clients } else s).ok
+
 def connect (s : St) (K : Nat) : St :=
   if s.svcGone || (lookupClient K s.clients).isSome then s.skipRes else
-  -- qb_ipcs_uc_recv_and_auth: the pending handshake holds a service reference;
-  -- handle_new_connection: qb_ipcs_connection_alloc (initial ref + service ref)
   let c := s.nconn + 1
-  let s := { s with nconn := c, svcRc := s.svcRc + 2 }
-  let s := s.upd c fun _ => { rc := 1, init := true }
-  let (e, s) := s.pop .accept
-  let s := s.cb .accept c e.ret
-  let s := exec FUEL s (.ops c e.ops)
+  let p := (connA s).pop .accept
+  let s := exec FUEL (p.2.cb .accept c p.1.ret) (.ops c p.1.ops)
   if s.halt then s else
-  if e.ret != 0 then
-    -- state INACTIVE: drop the initial reference
-    let s := s.upd c fun k => { k with phase := .rejected }
-    let s := exec FUEL (s.dec c fun k => { k with init := false }) (.zero c)
-    if s.halt then s else
-    (s.svcUnref).emit (.res (errName e.ret))
+  if p.1.ret != 0 then connRejPost (exec FUEL (connRejPre s c) (.zero c)) p.1.ret
   else
     let s := s.touch c
     if s.halt then s else
-    -- ACTIVE, qb_list_add, response; created is bracketed by a temporary reference
-    let s := { s with list := c :: s.list }
-    let s := s.upd c fun k => { k with st := .active, rc := k.rc + 1, brCreated := true }
-    let s := s.cb .created c 0
-    let s := s.upd c fun k => { k with created := true }
-    let (e, s) := s.pop .created
-    let s := exec FUEL s (.ops c e.ops)
+    let q := (connActPre s c).pop .created
+    let s := exec FUEL q.2 (.ops c q.1.ops)
     if s.halt then s else
     let s := s.touch c
     if s.halt then s else
-    let s := s.upd c fun k => if k.st = .active then { k with st := .established } else k
-    let s := exec FUEL (s.dec c fun k => { k with brCreated := false }) (.zero c)
-    if s.halt then s else
-    -- the client is connected iff the server did not drop the connection inside created
-    let s := s.svcUnref
-    (if (s.conns c).st == .established && !(s.conns c).freed then { s with clients := (K, c) :: s.clients } else s).ok
+    connFin (exec FUEL (connEstPre s c) (.zero c)) K c
+
+def brOpenD (s : St) (c : Nat) : St :=
+  if s.fixDispatch then s.ref c fun k => { k with brDispatch := true } else s.touch c
+def brCloseD (s : St) (c : Nat) : St := s.dec c fun k => { k with brDispatch := false }
 
 /-- qb_ipcs_dispatch_connection_request for one request -/
 def dispatchMsg (s : St) (c : Nat) : St :=
-  let s := if s.fixDispatch then s.ref c fun k => { k with brDispatch := true } else s.touch c
+  let s := brOpenD s c
   if s.halt then s else
-  let (e, s) := s.pop .msg
-  let s := s.cb .msg c 0
-  let s := exec FUEL s (.ops c e.ops)
+  let p := s.pop .msg
+  let s := exec FUEL (p.2.cb .msg c 0) (.ops c p.1.ops)
   if s.halt then s else
   -- _process_request_: c->service->funcs.reclaim(&c->request), loop condition
   let s := s.touch c
   if s.halt then s else
-  if s.fixDispatch then exec FUEL (s.dec c fun k => { k with brDispatch := false }) (.zero c) else s
+  if s.fixDispatch then exec FUEL (brCloseD s c) (.zero c) else s
 
 /-- POLLHUP on the connection's socket -/
 def dispatchHup (s : St) (c : Nat) : St :=
-  let s := if s.fixDispatch then s.ref c fun k => { k with brDispatch := true } else s.touch c
+  let s := brOpenD s c
   if s.halt then s else
   let s := exec FUEL s (.disc c)
   if s.halt then s else
-  if s.fixDispatch then exec FUEL (s.dec c fun k => { k with brDispatch := false }) (.zero c) else s
+  if s.fixDispatch then exec FUEL (brCloseD s c) (.zero c) else s
 
 def serverSees (s : St) (c : Nat) : Bool :=
   !(s.conns c).freed && (s.conns c).st == .established
